@@ -5,7 +5,7 @@
 //!
 //! `doc`  -> `parse_policy_document(text)`, `str` -> `parse_policy_str(text, V2)`,
 //! `expr` -> `parse_expression(text)`; a parsed policy is compiled with `Compiler::compile`
-//! (default, and with `debug(true)` + `stub_ffi(true)`) and `compile_interface`.
+//! (with `--opt full=1` also with `debug(true)` + `stub_ffi(true)`, and `compile_interface`).
 //!
 //! Decides (C27): neither step panics; what comes back is a result or a structured error
 //! (kind / message / span are read).  `Display` of the errors is *outside* the property as
@@ -40,6 +40,7 @@ impl LineOut {
 pub fn run(args: &Args) {
     let path = args.output.as_deref().unwrap_or_else(|| vrt::die("--out required"));
     let mut out = LineOut(std::fs::File::create(path).unwrap_or_else(|e| vrt::die(&format!("create {path}: {e}"))));
+    let full = args.opt_bool("full");
     for (i, case) in args.read_input().iter().enumerate() {
         let entry = case.s("entry");
         let text = case.s("text");
@@ -83,9 +84,14 @@ pub fn run(args: &Args) {
         if let Ok(Some(policy)) = &parsed {
             let r = vrt::catch_any(|| {
                 let a = Compiler::new(policy).compile();
-                let b = Compiler::new(policy).debug(true).stub_ffi(true).compile();
-                let c = Compiler::new(policy).debug(false).compile_interface();
-                (a, b.is_ok(), c.is_ok())
+                // the other public ways into the compiler (thorough tier)
+                let (b, c) = if full {
+                    (Compiler::new(policy).debug(true).stub_ffi(true).compile().is_ok(),
+                     Compiler::new(policy).debug(false).compile_interface().is_ok())
+                } else {
+                    (false, false)
+                };
+                (a, b, c)
             });
             match r {
                 Err(p) => {
